@@ -343,6 +343,28 @@ def random_sequence(rng, length, wide, avoid=()):
     ub = {k: 0 for k in ("m0", "m1", "s0", "s1", "q0", "q1")}
     ops = []
     tries = 0
+    # one sequence in five starts by building the SAME map (or set) in both registers through different insertion
+    # orders — equal as finite maps, different as trees — and compares them before going on: equality, comparison
+    # and the binary operations must not see the shape
+    if not grow and rng.random() < 0.2 and length >= 12:
+        f = "m" if rng.random() < 0.6 else "s"
+        keys = rng.sample(pool, min(len(pool), rng.randint(3, 6))) if len(set(pool)) >= 3 else []
+        keys = list(dict.fromkeys(keys))
+        if len(keys) >= 3 and (f + "Insert") in names:
+            vals = {k: rng.randint(0, 9) for k in keys}
+            other = keys[:]
+            while other == keys:
+                rng.shuffle(other)
+            for r, order in ((0, keys), (1, other)):
+                for k in order:
+                    o = {"op": f + "Insert", "r": r, "k": k, "v": vals[k], "f": 0}
+                    nb = size_bounds(ub, o)
+                    if nb is not None:
+                        ub = nb
+                        ops.append(o)
+            for name in (f + "Equal", f + "Compare", f + "Equal"):
+                if name in names:
+                    ops.append({"op": name, "r": len(ops) % 2, "k": 0, "v": 0, "f": 0})
     while len(ops) < length and tries < length * 20:
         tries += 1
         growing = len(ops) < grow
